@@ -10,7 +10,10 @@ LEVEL = 'proof'
 RULE = ('gin-machine/call with gin.REQUIRED markers: every subset of positional / keyword / signature-default / '
         '**kwargs-only names marked, random subsets of them bound over scopes of depth 0-2; plus registrations '
         'with signature-level REQUIRED on denylisted / non-allowlisted parameters. non-trivial = a call with >= 2 '
-        'markers of different kinds of which a proper non-empty subset has an applicable binding.')
+        'markers of different kinds of which a proper non-empty subset has an applicable binding. '
+        'bound-callable (implementation only): external configurables made from a classmethod reached through its class, '
+        'a bound method, a callable instance (controls: staticmethod, plain function) with every placement of markers '
+        'and every subset of bindings.')
 TRUSTED_BASE = c01.TRUSTED_BASE
 ASSUMPTIONS = ['the names in the RuntimeError are parsed back from the message text (the property names them)',
                'bindings whose value is the %gin.REQUIRED constant itself are not generated here (see DESIGN.md F15)']
@@ -170,6 +173,149 @@ class ReqEngine(c01.CallEngine):
     return r
 
 
+class BoundCallableEngine(Engine):
+  """configurables made (gin.external_configurable) from callables whose first parameter is already bound: a classmethod
+  reached through its class, a method of an instance, an instance with __call__ — next to a staticmethod and a plain
+  function with the same visible signature (a, b, c=<30|REQUIRED>, *, k=<40|REQUIRED>).  Every placement of markers among
+  the positional and keyword arguments and the signature defaults, every subset of bindings.  The predicate is the
+  property text on the signature the CALLER sees: a marked parameter receives its own binding (in its own position),
+  unmarked arguments arrive unchanged, unfilled markers give a RuntimeError naming the configurable and exactly the
+  unfilled names in signature order before the body runs, the marker never arrives.  Implementation only: the
+  Gin-machine model has no pre-bound first parameter."""
+  name = 'bound-callable'
+  model = False
+  KINDS = ('classmethod', 'boundmethod', 'instance', 'staticmethod', 'function')
+  NAMES, KWONLY = ['a', 'b', 'c'], ['k']
+
+  def budget(self, tier):
+    return 150 if tier == 'quick' else 3000
+
+  def corpus(self):
+    out = []
+    for kind in self.KINDS:
+      out.append({'kind': kind, 'sigreq': [], 'args': [1, 'REQ'], 'kwargs': [], 'bound': [['a', 100]], 'scope': ''})
+      out.append({'kind': kind, 'sigreq': [], 'args': ['REQ'], 'kwargs': [['b', 12]], 'bound': [['a', 100]], 'scope': 's'})
+      out.append({'kind': kind, 'sigreq': ['c'], 'args': [1, 2, 3], 'kwargs': [], 'bound': [], 'scope': ''})
+      out.append({'kind': kind, 'sigreq': ['c', 'k'], 'args': ['REQ', 2], 'kwargs': [['k', 'REQ']],
+                  'bound': [['b', 101], ['k', 103]], 'scope': ''})
+    return out
+
+  def gen(self, rng, tier):
+    names = self.NAMES
+    args = [('REQ' if rng.random() < 0.4 else i + 1) for i in range(rng.randint(0, 3))]
+    rest = names[len(args):] + self.KWONLY
+    kwargs = [[n, 'REQ' if rng.random() < 0.4 else 11 + (names + self.KWONLY).index(n)]
+              for n in rest if rng.random() < 0.35]
+    bound = [[n, 100 + i] for i, n in enumerate(names + self.KWONLY) if rng.random() < 0.5]
+    have = set(names[:len(args)]) | {n for n, _ in kwargs} | {n for n, _ in bound}
+    for n in ('a', 'b'):          # keep the call legal Python: a parameter without default gets a value from somewhere
+      if n not in have:
+        bound.append([n, 100 + names.index(n)])
+    return {'kind': rng.choice(self.KINDS), 'sigreq': [n for n in ('c', 'k') if rng.random() < 0.4],
+            'args': args, 'kwargs': kwargs, 'bound': sorted(bound), 'scope': rng.choice(['', '', 's', 's/t'])}
+
+  def shrink(self, case):
+    for key in ('bound', 'kwargs', 'sigreq'):
+      for i in range(len(case[key])):
+        c = dict(case, **{key: case[key][:i] + case[key][i + 1:]})
+        have = set(self.NAMES[:len(c['args'])]) | {n for n, _ in c['kwargs']} | {n for n, _ in c['bound']}
+        if 'a' in have and 'b' in have:
+          yield c
+    if case['scope']:
+      yield dict(case, scope='')
+
+  @staticmethod
+  def expected(case):
+    """(missing names in signature order, or None; what the body must see) — from the property text alone."""
+    names, kwonly = BoundCallableEngine.NAMES, BoundCallableEngine.KWONLY
+    dflt = {'c': 'REQ' if 'c' in case['sigreq'] else 30, 'k': 'REQ' if 'k' in case['sigreq'] else 40}
+    pos = dict(zip(names, case['args']))
+    kw = dict((n, v) for n, v in case['kwargs'])
+    bound = dict((n, v) for n, v in case['bound'])
+    marked, env = [], {}
+    for n in names + kwonly:
+      given = pos.get(n, kw.get(n, '<none>'))
+      if given == 'REQ' or (given == '<none>' and dflt.get(n) == 'REQ'):
+        marked.append(n)
+        env[n] = bound.get(n)
+      elif given != '<none>':
+        env[n] = given
+      else:
+        env[n] = bound.get(n, dflt.get(n))
+    missing = [n for n in marked if n not in bound]
+    return marked, missing, env
+
+  def impl(self, case):
+    gin = C.fresh_gin()
+    REQ = gin.REQUIRED
+    seen = []
+    dc = REQ if 'c' in case['sigreq'] else 30
+    dk = REQ if 'k' in case['sigreq'] else 40
+
+    def body(a, b, c, k):
+      seen.append({'a': a, 'b': b, 'c': c, 'k': k})
+      return len(seen)
+
+    class Holder(object):
+      @classmethod
+      def cm(cls, a, b, c=dc, *, k=dk):
+        return body(a, b, c, k)
+
+      def bm(self, a, b, c=dc, *, k=dk):
+        return body(a, b, c, k)
+
+      def __call__(self, a, b, c=dc, *, k=dk):
+        return body(a, b, c, k)
+
+      @staticmethod
+      def sm(a, b, c=dc, *, k=dk):
+        return body(a, b, c, k)
+
+    def fn(a, b, c=dc, *, k=dk):
+      return body(a, b, c, k)
+
+    target = {'classmethod': Holder.cm, 'boundmethod': Holder().bm, 'instance': Holder(), 'staticmethod': Holder.sm,
+              'function': fn}[case['kind']]
+    w = gin.external_configurable(target, name='probe', module='c10mod')
+    for n, v in case['bound']:
+      gin.bind_parameter((case['scope'] + '/' if case['scope'] else '') + 'c10mod.probe.' + n, v)
+    real = lambda v: REQ if v == 'REQ' else v
+    marked, missing, env = self.expected(case)
+    what = '%s probe(%s) with bindings %r in scope %r' % (
+        case['kind'], ', '.join([repr(v) for v in case['args']] + ['%s=%r' % (n, v) for n, v in case['kwargs']]),
+        case['bound'], case['scope'])
+    fails = []
+    try:
+      with gin.config_scope(case['scope'] or None):
+        w(*[real(v) for v in case['args']], **{n: real(v) for n, v in case['kwargs']})
+      outcome = 'ok'
+    except Exception as e:  # pylint: disable=broad-except
+      outcome = '%s: %s' % (type(e).__name__, str(e).split('\n')[0][:160])
+      err = e
+    got = seen[-1] if seen else None
+    if got is not None and any(v is REQ for v in got.values()):
+      fails.append(('required-leaked', '%s: the body received the marker: %r' % (what, {k: ('REQ' if v is REQ else v) for k, v in got.items()})))
+    if not marked:
+      pass          # a call without any marker: what it receives is C01's subject, not C10's
+    elif missing:
+      if seen:
+        fails.append(('body-ran-despite-missing', '%s: %r unfilled, yet the body ran' % (what, missing)))
+      want = "Required bindings for `probe` not provided in config: %r" % (missing,)
+      if not (outcome.startswith('RuntimeError') and str(err).split('\n')[0] == want):
+        fails.append(('missing-required-report', '%s: marked %r, unfilled %r: expected RuntimeError %r, got %s' %
+                      (what, marked, missing, want, outcome)))
+    elif outcome != 'ok':
+      kind = 'spurious-missing' if outcome.startswith('RuntimeError: Required bindings') else 'valid-call-raised'
+      fails.append((kind, '%s: every marked parameter %r has a binding, yet %s' % (what, marked, outcome)))
+    elif got != env:
+      wrong = sorted(n for n in env if got.get(n) != env[n])
+      kind = 'required-not-filled' if any(n in marked for n in wrong) else 'caller-arg-changed'
+      fails.append((kind, '%s: marked %r; the body must see %r, it saw %r' % (what, marked, env, got)))
+    nontrivial = case['kind'] in ('classmethod', 'boundmethod', 'instance') and bool(marked) and bool(case['bound'])
+    tags = [case['kind'], 'missing' if missing else 'filled' if marked else 'unmarked']
+    return {'obs': T('Done'), 'fails': fails[:3], 'nontrivial': nontrivial, 'tags': tags}
+
+
 # CallEngine.impl keeps the machine for subclasses
 _orig_impl = c01.CallEngine.impl
 
@@ -194,4 +340,4 @@ def _impl_keep(self, case):
 
 
 c01.CallEngine.impl = _impl_keep
-ENGINES = [ReqEngine()]
+ENGINES = [ReqEngine(), BoundCallableEngine()]
